@@ -356,6 +356,42 @@ def _repeatable(check: Check):
              not a_f['_buf'].elts)
   check.ob('R-REPLAY', init, 'container: first_pass=False, buf=base / otherwise: first_pass=True, buf=[]', ok_init,
            'copying is enabled exactly when the replay buffer is a private list')
+  # the no-copy arm is taken only for builtin containers whose iter() restarts from the beginning with the same items
+  REITERABLE = {'list', 'tuple', 'dict', 'str', 'bytes', 'bytearray', 'range', 'frozenset', 'set'}
+  test = next((n.ast.test for n in iff.cfg.nodes if n.kind == 'if'), None)
+  if test is not None:
+    types, negated, shape_ok = [], False, True
+    for x in ast.walk(test):
+      if isinstance(x, ast.UnaryOp) and isinstance(x.op, ast.Not):
+        negated = True
+      if isinstance(x, ast.Call) and isinstance(x.func, ast.Name) and x.func.id == 'isinstance' and len(x.args) == 2:
+        if iff.param_of(x.args[0]) != 'base':
+          shape_ok = False
+        t = x.args[1]
+        if isinstance(t, ast.Name):
+          # any(isinstance(base, c) for c in (...)): the comprehension variable ranges over a literal tuple
+          comp = next((g for y in ast.walk(test) if isinstance(y, (ast.GeneratorExp, ast.ListComp)) for g in y.generators
+                       if isinstance(g.target, ast.Name) and g.target.id == t.id), None)
+          if comp is not None and isinstance(comp.iter, (ast.Tuple, ast.List)):
+            types += comp.iter.elts
+          else:
+            types.append(t)
+        elif isinstance(t, (ast.Tuple, ast.List)):
+          types += t.elts
+        else:
+          types.append(t)
+    names = []
+    for t in types:
+      r = repo.resolve(init.scope, t)
+      names.append(r.path.split('.')[-1] if r.kind == 'ext' and r.path.startswith('builtins.') else txt(t))
+    if not types or not shape_ok:
+      check.inconclusive('R-REPLAY', init, txt(test)[:80], 'the no-copy condition is not an isinstance test of the base iterable; cannot decide '
+                         'whether every base taking that arm replays itself')
+    else:
+      bad = sorted(set(names) - REITERABLE)
+      check.ob('R-REPLAY.nocopy', init, 'no-copy arm only for builtin re-iterable containers', not negated and not bad,
+               'an arbitrary iterable (a sampler, a dataset view, a file-backed stream) may give different or no items on a second '
+               f'iter(); only {sorted(REITERABLE)} may skip the private copy (negated test: {negated}, other types: {bad})', node=test)
   # __next__: append guarded by self._first_pass, dominates the return
   apps = [c for _, c in nff.calls() if isinstance(c.func, ast.Attribute) and c.func.attr == 'append' and txt(c.func.value) == 'self._buf']
   ok_app = False
